@@ -80,7 +80,7 @@ Next ==
   \/ \E k \in {"redirect", "filters", "empty"} : ActionCreate(k)
   \/ \E a \in Of("action") : ActionSerialize(a) \/ ActionStatus(a) \/ ActionLog(a) \/ ActionDrop(a)
                              \/ FilterCreate(a, 0) \/ (\E h \in Of("hmap") : FilterCreate(a, h.id) \/ HeaderFilter(a.id, h))
-  \/ \E k \in {"empty", "two", "html"} : HmapCreate(k)
+  \/ \E k \in {"empty", "two", "html", "bad"} : HmapCreate(k)
   \/ \E h \in Of("hmap") : HeaderFilter(0, h) \/ HmapFree(h)
   \/ \E p \in Payloads : BufferCreate(p)
   \/ \E b \in Of("buffer") : BufferDrop(b) \/ FilterFilter(0, b) \/ (\E f \in Of("filter") : FilterFilter(f.id, b))
